@@ -174,7 +174,10 @@ def closest_pairs(T, P):
     e0 = (np.cross(B - A, F - A) * N).sum(-1)
     e1 = (np.cross(C - B, F - B) * N).sum(-1)
     e2 = (np.cross(A - C, F - C) * N).sum(-1)
-    inside = (e0 >= 0) & (e1 >= 0) & (e2 >= 0) & (nn > 0)
+    # a triangle whose height is below 1e-8 of its longest edge (zero-area face given by three
+    # collinear vertices, up to rounding) has no usable plane: it is its three edges
+    L2 = np.maximum(((B - A) ** 2).sum(-1), np.maximum(((C - B) ** 2).sum(-1), ((A - C) ** 2).sum(-1)))
+    inside = (e0 >= 0) & (e1 >= 0) & (e2 >= 0) & (nn > 1e-16 * L2 * L2)
     cands = []
     for (S0, S1, codes) in ((A, B, (0, 3, 1)), (B, C, (1, 4, 2)), (C, A, (2, 5, 0))):
         q, s = _closest_on_segment(P, S0, S1)
